@@ -20,6 +20,8 @@ pub struct Seed {
     pub bytes: Vec<u8>,
     pub password: Option<Vec<u8>>,
     pub streamable: bool,
+    /// false for seeds the seekable reader refuses to open entries of (judged through the streaming reader only)
+    pub seekable: bool,
     pub aes: bool,
     /// (data_pos, csize, central crc field pos, local crc field pos, ae2)
     pub regions: Vec<(u64, u64, u64, u64, bool)>,
@@ -33,7 +35,7 @@ fn seed_from_bytes(label: &str, bytes: Vec<u8>, password: Option<&[u8]>, streama
     let regions = p.entries.iter().enumerate().map(|(i, e)| (e.data_pos, e.csize, e.central_pos + 16, e.local_pos + 14, ae2.get(i).copied().unwrap_or(false))).collect();
     let opts = Opts { password: password.map(|p| p.to_vec()), ..Opts::lenient() };
     let plain = p.entries.iter().map(|e| zipparse::content(&bytes, e, &opts).ok()).collect();
-    Seed { label: label.to_string(), bytes, password: password.map(|p| p.to_vec()), streamable, aes: !ae2.is_empty(), regions, plain }
+    Seed { label: label.to_string(), bytes, password: password.map(|p| p.to_vec()), streamable, seekable: true, aes: !ae2.is_empty(), regions, plain }
 }
 
 fn payloads(seed: u64) -> (Vec<u8>, Vec<u8>) {
@@ -132,6 +134,21 @@ pub fn seeds(seed: u64, quick: bool) -> Vec<Seed> {
         sd.plain = vec![Some(a.clone()), Some(b.clone())];
         out.push(sd);
     }
+    // entries that are NOT encrypted but carry a WinZip AES extra block (AE-2): the streaming reader reads them as the
+    // plain entries they are, and their CRC is all that protects them (the seekable reader refuses them)
+    {
+        let aesx = |m: u16| crate::reference::zipbuild::extra_block(0x9901, &[2, 0, b'A', b'E', 3, m as u8, (m >> 8) as u8]);
+        let spec = Spec {
+            entries: vec![
+                ESpec { name: b"a".to_vec(), method: 0, content: a.clone(), local_extra: aesx(0), central_extra: aesx(0), ..Default::default() },
+                ESpec { name: b"b".to_vec(), method: 8, content: b.clone(), local_extra: aesx(8), central_extra: aesx(8), ..Default::default() },
+            ],
+            ..Default::default()
+        };
+        let mut sd = seed_from_bytes("builder-plain-with-aes-extra", build(&spec).0, None, true, &[]);
+        sd.seekable = false;
+        out.push(sd);
+    }
     for sd in &out {
         for (i, r) in sd.regions.iter().enumerate() {
             assert!(!r.4 || sd.plain.get(i).map_or(false, |p| p.is_some()), "AE-2 seed entry without known content");
@@ -158,6 +175,7 @@ fn read_pattern<R: Read>(r: &mut R, bufsize: usize, zero_reads: bool, limit: usi
             match r.read(&mut []) {
                 Ok(0) => {}
                 Ok(_) => return None,
+                Err(e) if e.kind() == std::io::ErrorKind::Interrupted => {}
                 Err(_) => return None,
             }
         }
@@ -177,6 +195,8 @@ fn read_pattern<R: Read>(r: &mut R, bufsize: usize, zero_reads: bool, limit: usi
                     return None;
                 }
             }
+            // the retryable non-error of the Read contract: callers (and std's own loops) simply call again
+            Err(e) if e.kind() == std::io::ErrorKind::Interrupted => {}
             Err(_) => return None,
         }
     }
@@ -191,9 +211,14 @@ fn pass(bytes: &[u8], password: Option<&[u8]>, stream: bool, bufsize: usize, zer
 /// `plain`: the undamaged content per entry. An AE-2 entry has no CRC to compare with; its authentication code
 /// must have rejected any change, so a clean EOF is only acceptable with exactly the original bytes.
 fn pass_with(bytes: &[u8], password: Option<&[u8]>, stream: bool, bufsize: usize, zero: bool, ae2: &[bool], plain: &[Option<Vec<u8>>]) -> Vec<Out> {
+    pass_reader(Cursor::new(bytes), password, stream, bufsize, zero, ae2, plain)
+}
+
+#[allow(clippy::too_many_arguments)]
+fn pass_reader<R: Read + std::io::Seek>(reader: R, password: Option<&[u8]>, stream: bool, bufsize: usize, zero: bool, ae2: &[bool], plain: &[Option<Vec<u8>>]) -> Vec<Out> {
     let mut outs = vec![];
     if stream {
-        let mut cur = Cursor::new(bytes);
+        let mut cur = reader;
         let mut i = 0;
         loop {
             let r = guard(|| match zip::read::read_zipfile_from_stream(&mut cur) {
@@ -226,7 +251,7 @@ fn pass_with(bytes: &[u8], password: Option<&[u8]>, stream: bool, bufsize: usize
         }
         return outs;
     }
-    let mut ar = match guard(|| zip::ZipArchive::new(Cursor::new(bytes))) {
+    let mut ar = match guard(move || zip::ZipArchive::new(reader)) {
         Ok(Ok(a)) => a,
         Ok(Err(_)) => return vec![Out::NotOpened],
         Err(p) => return vec![Out::Panic(p)],
@@ -271,7 +296,7 @@ fn pass_with(bytes: &[u8], password: Option<&[u8]>, stream: bool, bufsize: usize
 fn judge(seed: &Seed, bytes: &[u8], what: &str, case: &dyn Fn() -> Value, bufs: &[usize], st: &mut Stats, order: u64) {
     let ae2: Vec<bool> = seed.regions.iter().map(|r| r.4).collect();
     for stream in [false, true] {
-        if stream && !seed.streamable {
+        if stream && !seed.streamable || !stream && !seed.seekable {
             continue;
         }
         for &b in bufs {
@@ -325,6 +350,19 @@ fn replay(case: &Value, st: &mut Stats, seed: u64) {
         crate::diag!("unknown seed {label}");
         return;
     };
+    if case["what"] == "interrupted-read" {
+        use crate::sio::inst::{plan, Dev, Inst};
+        let p = plan();
+        p.borrow_mut().chunk = Some(case["chunk"].as_u64().unwrap_or(1) as usize);
+        p.borrow_mut().devs.insert(case["interrupted_call"].as_u64().unwrap_or(0), Dev::Interrupted);
+        let ae2: Vec<bool> = s.regions.iter().map(|r| r.4).collect();
+        let outs = pass_reader(Inst::new(s.bytes.clone(), p), s.password.as_deref(), case["route"] == "stream", case["buffer"].as_u64().unwrap_or(4096) as usize, false, &ae2, &s.plain);
+        println!("  per-entry outcomes: {outs:?}");
+        if outs.iter().any(|o| *o == (Out::Clean { ok: false })) {
+            st.viol("completed-read-of-other-bytes/replay", "an entry read to a clean EOF with bytes whose CRC differs from the declared one", case.clone(), 0);
+        }
+        return;
+    }
     let bytes = crate::util::unhex(case["archive"].as_str().unwrap_or(""));
     let c = case.clone();
     judge(s, &bytes, case["what"].as_str().unwrap_or("replay"), &move || c.clone(), &[1, 2, 7, 4096, 0], st, 0);
@@ -440,12 +478,72 @@ pub fn run(args: &Args) -> i32 {
     st.sample(json!({"seed": "builder-m8", "damage": "first payload truncated by 1..len; payloads swapped"}));
     ctx.stats.merge(st);
 
+    // the same oracle under an uncooperative underlying stream: every read transfers at most c bytes, and one read call
+    // (every index, exhaustively) answers ErrorKind::Interrupted first; callers retry as std's own loops do. A read that
+    // then completes must still have returned bytes with the declared CRC (nothing may be dropped or repeated).
+    {
+        use crate::sio::inst::{plan, Dev, Inst};
+        let mut jobs: Vec<(usize, bool, usize, u64)> = vec![];
+        for (si, sd) in all.iter().enumerate() {
+            for stream in [false, true] {
+                if stream && !sd.streamable || !stream && !sd.seekable {
+                    continue;
+                }
+                for chunk in [1usize, 5, 4096] {
+                    let p = plan();
+                    p.borrow_mut().record_kinds = false;
+                    p.borrow_mut().chunk = Some(chunk);
+                    let ae2: Vec<bool> = sd.regions.iter().map(|r| r.4).collect();
+                    let _ = pass_reader(Inst::new(sd.bytes.clone(), p.clone()), sd.password.as_deref(), stream, 4096, false, &ae2, &sd.plain);
+                    let n = p.borrow().calls;
+                    for k in 0..n {
+                        jobs.push((si, stream, chunk, k));
+                    }
+                }
+            }
+        }
+        ctx.bound("interrupted_reads", json!({"underlying_chunk": [1, 5, 4096], "interrupted_at": "every underlying I/O call index (exhaustive per seed and route)", "caller_buffers": [4096, 3], "executions": jobs.len() * 2}));
+        let jobs_r = &jobs;
+        let s = par_for(jobs.len() as u64 * 2, 64, |t, st| {
+            let (si, stream, chunk, k) = jobs_r[(t / 2) as usize];
+            let bufsize = if t % 2 == 0 { 4096 } else { 3 };
+            let sd = &all_ref[si];
+            let p = plan();
+            p.borrow_mut().record_kinds = false;
+            p.borrow_mut().chunk = Some(chunk);
+            p.borrow_mut().devs.insert(k, Dev::Interrupted);
+            let ae2: Vec<bool> = sd.regions.iter().map(|r| r.4).collect();
+            st.evals += 1;
+            let outs = pass_reader(Inst::new(sd.bytes.clone(), p), sd.password.as_deref(), stream, bufsize, false, &ae2, &sd.plain);
+            for (i, o) in outs.iter().enumerate() {
+                match o {
+                    Out::Clean { ok: false } => {
+                        let route = if stream { "stream" } else { "seekable" };
+                        st.class("CLEAN-EOF-WRONG-CRC");
+                        st.viol(
+                            format!("completed-read-of-other-bytes/{}/{route}/interrupted-read", sd.label),
+                            format!("undamaged seed {}: underlying reads of at most {chunk} bytes, I/O call {k} answers Interrupted once and is retried: entry {i} reads to a clean EOF through the {route} reader (buffer {bufsize}) but the CRC of the returned bytes differs from the declared one", sd.label),
+                            json!({"seed": sd.label, "what": "interrupted-read", "route": route, "chunk": chunk, "interrupted_call": k, "buffer": bufsize}),
+                            (3 << 40) + t,
+                        );
+                    }
+                    Out::Clean { ok: true } => st.class("interrupted:clean-eof-crc-matches"),
+                    Out::ReadErr => st.class("interrupted:read-error"),
+                    Out::NotOpened => st.class("interrupted:not-opened"),
+                    Out::Panic(_) => st.class("panic(C05's domain)"),
+                }
+            }
+        });
+        ctx.stats.merge(s);
+        crate::diag!("  [C04] interrupted reads done at {:.1}s", ctx.elapsed());
+    }
+
     // undamaged seeds must read cleanly (non-vacuity of the clean path)
     let mut st = Stats::default();
     for s in &all {
         let ae2: Vec<bool> = s.regions.iter().map(|r| r.4).collect();
         for stream in [false, true] {
-            if stream && !s.streamable {
+            if stream && !s.streamable || !stream && !s.seekable {
                 continue;
             }
             let outs = pass_with(&s.bytes, s.password.as_deref(), stream, 7, false, &ae2, &s.plain);
